@@ -226,6 +226,15 @@ type C16ConvCase struct {
 	// Gen: every converter (defaults and call-time ones) is not supplied but
 	// EMITTED by a converter generator of its own, for values of type From
 	Gen bool `json:"gen,omitempty"`
+	// GenByName (with Gen): two NAMED values of type From are supplied ("id",
+	// "other"); the default generators react to any value of the type, the
+	// call-time ones only to the value named "id" -- which generator's
+	// converter enters the graph first must not depend on the order in which
+	// the values are shown
+	GenByName bool `json:"genByName,omitempty"`
+	// Mixed (with Gen): only the call-time converters come out of generators,
+	// the defaults are plain converters
+	Mixed bool `json:"mixed,omitempty"`
 }
 
 func evalC16Conv(c *engine.Case) engine.Verdict {
@@ -246,12 +255,12 @@ func evalC16Conv(c *engine.Case) engine.Verdict {
 	}
 	w := engine.NewWorld()
 	var dargs, cargs []argmapper.Arg
-	asOption := func(f *argmapper.Func) argmapper.Arg {
-		if !x.Gen {
+	asOption := func(f *argmapper.Func, atCall bool) argmapper.Arg {
+		if !x.Gen || (x.Mixed && !atCall) {
 			return argmapper.ConverterFunc(f)
 		}
 		return argmapper.ConverterGen(func(val argmapper.Value) (*argmapper.Func, error) {
-			if val.Type != engine.Types[x.From] {
+			if val.Type != engine.Types[x.From] || (x.GenByName && atCall && val.Name != "id") {
 				return nil, nil
 			}
 			return f, nil
@@ -259,6 +268,12 @@ func evalC16Conv(c *engine.Case) engine.Verdict {
 	}
 	if x.Gen {
 		v.Class("converter-override-through-generators")
+	}
+	if x.Gen && x.GenByName {
+		v.Class("generators-reacting-to-different-values")
+	}
+	if x.Gen && x.Mixed {
+		v.Class("call-time-generator-against-default-converter")
 	}
 	id := 0
 	for i := 0; i < x.Defaults; i++ {
@@ -268,7 +283,7 @@ func evalC16Conv(c *engine.Case) engine.Verdict {
 			v.Failf("setup: %v", err)
 			return v
 		}
-		dargs = append(dargs, asOption(f))
+		dargs = append(dargs, asOption(f, false))
 	}
 	firstCall := id + 1
 	for i := 0; i < x.AtCall; i++ {
@@ -284,7 +299,7 @@ func evalC16Conv(c *engine.Case) engine.Verdict {
 			v.Failf("setup: %v", err)
 			return v
 		}
-		cargs = append(cargs, asOption(f))
+		cargs = append(cargs, asOption(f, true))
 	}
 	if x.OtherConv {
 		// an unrelated converter of another type, as a default
@@ -304,6 +319,12 @@ func evalC16Conv(c *engine.Case) engine.Verdict {
 		return v
 	}
 	in := engine.Input{L: engine.Label{Type: x.From, Dyn: x.From}, Tok: 1}
+	if x.Gen && x.GenByName {
+		in.L.Name = "id"
+		in2 := engine.Input{L: engine.Label{Name: "other", Type: x.From, Dyn: x.From}, Tok: 2}
+		w.RegisterInput(in2)
+		cargs = append(cargs, engine.InputArg(in2))
+	}
 	w.RegisterInput(in)
 	cargs = append(cargs, engine.InputArg(in), engine.Quiet())
 	o := w.Call(f, cargs)
@@ -318,6 +339,13 @@ func evalC16Conv(c *engine.Case) engine.Verdict {
 		}
 		ran = ev.Func
 	}
+	if x.Defaults > 0 && ran < firstCall && x.Gen && x.Mixed {
+		// open finding KF-C16-1 (known-findings.json): a plain converter of
+		// the Func is not displaced by a generator given to Call
+		v.Failf("the default converter f%d was executed although a generator given at Call emits a converter of the same function type (f%d)", ran, firstCall)
+		v.Known = "KF-C16-1"
+		return v
+	}
 	if x.Defaults > 0 && ran < firstCall {
 		v.Failf("the default converter f%d was executed although a converter of the same function type (f%d) was given at Call: options given at Call override defaults", ran, firstCall)
 	}
@@ -330,7 +358,15 @@ func evalC16Conv(c *engine.Case) engine.Verdict {
 func genC16Conv(g engine.G) *engine.Case {
 	perm := rapidPerm(g, []int{0, 1, 2, 3, 4, 5})
 	x := C16ConvCase{From: perm[0], To: perm[1], InForm: engine.GenForm(g), OutForm: engine.GenForm(g),
-		Defaults: g.Int(0, 2), AtCall: g.Int(1, 2), Raw: g.Pct(30), OtherConv: g.Pct(30), Gen: g.Pct(30)}
+		Defaults: g.Int(0, 2), AtCall: g.Int(1, 2), Raw: g.Pct(30), OtherConv: g.Pct(30), Gen: g.Pct(40)}
+	if x.Gen {
+		switch g.Int(0, 3) {
+		case 0:
+			x.GenByName = true
+		case 1:
+			x.Mixed = true
+		}
+	}
 	if g.Pct(40) {
 		x.NamedOut = true
 		x.OutForm = engine.Pick(g, []string{engine.FormStruct, engine.FormPtr})
